@@ -13,7 +13,7 @@ RULE = ('histories on the real Twisted ModbusClientProtocol (TCP, dict-keyed) an
         'fake transport: up to N outstanding requests (quick N<=8, thorough N<=300 plus wrap batches of 65 540 requests with '
         '<=300 outstanding), replies in every permutation for N<=5 (systematic) and random permutations above, delivered '
         'frame-aligned or coalesced, injected unsolicited and duplicate replies, connectionLost at every position, requests '
-        'after the loss; the tid counter starts near 0xFFFF in the quick tier. Oracle: a model of the pending set replayed '
+        'after the loss, half of the runs with mixed request kinds (FC 1, 3, 6) and exception replies; the tid counter starts near 0xFFFF in the quick tier. Oracle: a model of the pending set replayed '
         'over the same history: each deferred fires exactly once with the reply whose tid was written on the wire for it '
         '(unique values), outstanding tids pairwise distinct, unsolicited/duplicate replies fire nothing, after the loss '
         'every pending deferred has failed with ConnectionException as does every later request. Non-trivial = >=2 requests '
@@ -46,12 +46,17 @@ def generate(rng, tier, index):
     nid = 0
     lost = False
     steps = rng.randint(3, 40 if tier == 'quick' else 120)
+    mixed = rng.random() < 0.5          # swarm: half of the runs mix request kinds and exception replies
     unsol_base = (tid_start + 20000) & 0xFFFF
     for _ in range(steps):
         r = rng.random()
         if r < 0.45 and len(pending) < maxn:
             nid += 1
             ev = {'e': 'req', 'id': nid, 'count': rng.choice([1, 2, 5, 20]), 'addr': rng.randrange(0, 60000)}
+            if mixed:
+                ev['kind'] = rng.choice(['rhr', 'rhr', 'rc', 'wr'])
+                if rng.random() < 0.2:
+                    ev['exc'] = rng.choice([1, 2, 3, 4, 6, 0x0A, 0x0B])
             if rng.random() < 0.15:
                 ev['reissue'] = {'id': 100000 + nid, 'count': 1, 'addr': rng.randrange(0, 60000)}
             events.append(ev)
@@ -248,9 +253,9 @@ def execute(scn):
                     % (rid, ncb, neb), context=ctx)
         if ncb == 1 and want['cb'] == 1:
             got = rec['cb'][0]
-            if got['regs'] != twc.reply_values(rid, rec['count']):
-                add('wrong-reply', 'request %d (tid %s) received the values of another reply: %s'
-                    % (rid, rec.get('tid'), got['regs'][:4]), context=ctx)
+            if got['summary'] != twc.expected_summary(rec):
+                add('wrong-reply', 'request %d (tid %s) received another reply than the one sent for it: %s'
+                    % (rid, rec.get('tid'), str(got['summary'])[:80]), context=ctx)
             elif variant == 'tcp' and got['tid'] != rec.get('tid'):
                 add('wrong-tid', 'request %d sent with tid %s got a reply object with tid %s' % (rid, rec.get('tid'), got['tid']))
         if neb == 1 and rec['eb'][0]['type'] != 'ConnectionException':
